@@ -89,7 +89,17 @@ func (l logIn) indexed() [][]byte {
 	return r
 }
 
-func evalShape(logs []logIn, s *shapeIn) *txresult.LogsBloom {
+// kept: an object handed to / returned by the code under test and the value it
+// had at that moment; it is compared again at the end of the case.
+type kept struct {
+	obj  *txresult.LogsBloom
+	snap []byte
+	what string
+}
+
+func clone(b []byte) []byte { return append([]byte{}, b...) }
+
+func evalShape(keeps *[]kept, logs []logIn, s *shapeIn) *txresult.LogsBloom {
 	if s.A == nil {
 		lb := txresult.NewLogsBloom(nil)
 		for _, i := range s.Leaf {
@@ -97,14 +107,59 @@ func evalShape(logs []logIn, s *shapeIn) *txresult.LogsBloom {
 		}
 		return lb
 	}
-	a := evalShape(logs, s.A)
-	b := evalShape(logs, s.B)
+	a := evalShape(keeps, logs, s.A)
+	b := evalShape(keeps, logs, s.B)
+	before := clone(b.LogBytes())
 	if s.Foreign {
 		a.Merge(foreignBloom{b.Bytes()})
 	} else {
 		a.Merge(b)
 	}
+	// the right operand is only read; it must keep its value for good
+	*keeps = append(*keeps, kept{b, before, "a bloom that was the argument of an earlier Merge"})
 	return a
+}
+
+func leafGroups(s *shapeIn, acc *[][]int) {
+	if s.A == nil {
+		*acc = append(*acc, s.Leaf)
+		return
+	}
+	leafGroups(s.A, acc)
+	leafGroups(s.B, acc)
+}
+
+// refillFold builds the block bloom the way service/transition.go and the receipt
+// decoder do: ONE source object is refilled (SetCompressedBytes / SetBytes /
+// SetInt64+SetBytes) with each receipt's bloom in turn and merged into the block bloom.
+func refillFold(logs []logIn, groups [][]int, fail func(string, ...interface{})) *txresult.LogsBloom {
+	type rb struct{ raw, comp []byte }
+	var rs []rb
+	for _, g := range groups {
+		lb := txresult.NewLogsBloom(nil)
+		for _, i := range g {
+			lb.AddLog(logs[i].addr(), logs[i].indexed())
+		}
+		rs = append(rs, rb{clone(lb.Bytes()), clone(lb.CompressedBytes())})
+	}
+	block := txresult.NewLogsBloom(nil)
+	src := txresult.NewLogsBloom(nil)
+	for i, r := range rs {
+		switch i % 3 {
+		case 0:
+			src.SetCompressedBytes(r.comp)
+		case 1:
+			src.SetBytes(r.raw)
+		default:
+			src.SetInt64(0)
+			src.SetBytes(r.raw)
+		}
+		block.Merge(src)
+		if !bytes.Equal(src.Bytes(), r.raw) {
+			fail("Merge changed its argument (receipt bloom %d of %d)", i, len(rs))
+		}
+	}
+	return block
 }
 
 func leavesOf(s *shapeIn, acc map[int]bool) {
@@ -191,11 +246,14 @@ func coqLog(l logIn) string {
 
 func runCase(in caseIn, wantCoq bool) (coq string, oracle string, nontrivial bool) {
 	var root, root2, rt *txresult.LogsBloom
-	var comp []byte
+	var comp, compSnap, rootSnap []byte
+	var keeps []kept
 	if p := hxlib.Catch(func() {
-		root = evalShape(in.Logs, &in.Shape)
-		root2 = evalShape(in.Logs, &in.Shape2)
+		root = evalShape(&keeps, in.Logs, &in.Shape)
+		rootSnap = clone(root.LogBytes())
+		root2 = evalShape(&keeps, in.Logs, &in.Shape2)
 		comp = root.CompressedBytes()
+		compSnap = clone(comp)
 		rt = txresult.NewLogsBloomFromCompressed(comp)
 	}); p != "" {
 		return "", "panic while building blooms: " + p, false
@@ -203,6 +261,23 @@ func runCase(in caseIn, wantCoq bool) (coq string, oracle string, nontrivial boo
 	fail := func(f string, a ...interface{}) {
 		if oracle == "" {
 			oracle = fmt.Sprintf(f, a...)
+		}
+	}
+	// the same receipts merged from one refilled source object, in the given order and largest first
+	var groups [][]int
+	leafGroups(&in.Shape, &groups)
+	var folds []*txresult.LogsBloom
+	if p := hxlib.Catch(func() {
+		folds = append(folds, refillFold(in.Logs, groups, fail))
+		sorted := append([][]int{}, groups...)
+		sort.SliceStable(sorted, func(i, j int) bool { return len(sorted[i]) > len(sorted[j]) })
+		folds = append(folds, refillFold(in.Logs, sorted, fail))
+	}); p != "" {
+		fail("panic while merging refilled receipt blooms: %s", p)
+	}
+	for _, f := range folds {
+		if !bytes.Equal(f.LogBytes(), rootSnap) {
+			fail("aliasing: the block bloom merged from one source object refilled per receipt (SetCompressedBytes/SetBytes, then Merge) differs from the merge of independent receipt blooms")
 		}
 	}
 	// merge order / association / grouping independence
@@ -234,6 +309,11 @@ func runCase(in caseIn, wantCoq bool) (coq string, oracle string, nontrivial boo
 			if !rt.Contain(q) {
 				fail("false negative after compression round trip: item %x of log %d", it.preimage(), i)
 			}
+			for _, f := range folds {
+				if !f.Contain(q) {
+					fail("false negative: item %x of log %d lost from the block bloom merged from a refilled source object", it.preimage(), i)
+				}
+			}
 		}
 		if len(its) > 0 {
 			q := queryBloom(queryIn{Items: its})
@@ -255,6 +335,18 @@ func runCase(in caseIn, wantCoq bool) (coq string, oracle string, nontrivial boo
 		if q.Present && !(obs[k].c1 && obs[k].c2) {
 			fail("false negative: query %d made of items of an added log is rejected (merged=%v, decompressed=%v)", k, obs[k].c1, obs[k].c2)
 		}
+	}
+	// keep and re-check: nothing that was returned or only read may have changed since
+	for _, k := range keeps {
+		if !bytes.Equal(k.obj.LogBytes(), k.snap) {
+			fail("aliasing: %s changed afterwards", k.what)
+		}
+	}
+	if !bytes.Equal(root.LogBytes(), rootSnap) {
+		fail("aliasing: the merged bloom changed after later operations on other blooms")
+	}
+	if !bytes.Equal(comp, compSnap) {
+		fail("aliasing: the bytes returned by CompressedBytes changed after later calls")
 	}
 	// non-trivial: at least two logs that add something, and at least one Merge
 	adding := 0
@@ -611,7 +703,7 @@ func main() {
 		ID: "C26",
 		Rule: "random sets of 1-6 event logs (shared/sparse/random addresses; signature (up to 99 characters) + 0-3 indexed values of lengths 0..300 incl. 31/32/33/63/64/65, some nil, some shared between logs; a fixed-shape case with every such length at every position; occasionally a log without indexed values) plus medium (8-23 logs) and dense (40-100 logs) sets probed with 30 absent items each; " +
 			"logs are accumulated with AddLog into receipt blooms and merged with Merge in a random tree shape (or the left fold of service/transition.go), some operands handed over as a foreign module.LogsBloom; " +
-			"a second random grouping/order (with repetitions) of the same logs must give the same bloom; the bloom is sent through CompressedBytes -> NewLogsBloomFromCompressed; " +
+			"a second random grouping/order (with repetitions) of the same logs must give the same bloom; the same receipts merged from ONE source object refilled per receipt (SetCompressedBytes / SetBytes / SetInt64, as transition.go and the receipt decoder do) must give it too; keep and re-check: Merge arguments, the merged bloom and the CompressedBytes slice are compared at the end of the case with copies taken when they were returned; the bloom is sent through CompressedBytes -> NewLogsBloomFromCompressed; " +
 			"queries: single items and multi-item filters of added logs (must be contained), absent items, present values at other positions, position 255; " +
 			"observed: LogBytes, Bytes, LogBytes after the compression round trip, Contain before and after; non-trivial = at least two logs that add items and at least one Merge; distinct = distinct Coq case term",
 		Shard:    50,
